@@ -70,7 +70,7 @@ BUILTIN_EXC = {
 }
 BUILTIN_EXC["IOError"] = BUILTIN_EXC["OSError"]
 BUILTIN_EXC["EnvironmentError"] = BUILTIN_EXC["OSError"]
-BUILTIN_TYPES = {"int", "str", "bytes", "bool", "float", "list", "tuple", "dict", "set", "frozenset", "object", "memoryview", "type"}
+BUILTIN_TYPES = {"int", "str", "bytes", "bytearray", "bool", "float", "list", "tuple", "dict", "set", "frozenset", "object", "memoryview", "type"}
 
 LOG_CALLS = {"print", "warnings.warn", "util.debug", "self.warn", "self.info", "self.debug", "logging.basicConfig",
              "self._print", "gc.collect"}
@@ -456,6 +456,11 @@ class Interp:
                 return default
             if self.spec_mode:
                 self.unsupported(node, "spec reads undeclared field %s.%s" % (recv.cls, attr))
+            hz = recv.fields.get("__hasattr__")
+            if (isinstance(hz, dict) and hz.get(attr) is False) or recv.fields.get("__complete__") is True:
+                # the contract declares that the object does not have this attribute (yet), or the object's attributes are exactly those
+                # assigned by the real code that built it
+                self.raise_("AttributeError")
             self.unsupported(node, "attribute %s of %s not declared in the contract" % (attr, recv.cls))
         if isinstance(recv, Opaque):
             if recv.tag == "super":
